@@ -17,7 +17,7 @@ func init() {
 		ID:          "C07",
 		Explanation: "Decided: (contexts) every copying context of the translator — call arguments, composite-literal elements/keys/values/fields, send values, map stores, method receivers, explicit conversions — converts its operand through the cloning helper, and assignment/definition of array or struct destinations emits $clone or T.copy; the non-cloning helper is only called from the reviewed comparison/lookup/print/return contexts (inventory); (box) conversion of an array or struct operand to an interface goes through a clone; (deep) the run-time copiers recurse into both value kinds (array and struct) and $clone is zero()+copy of the same type. NOT decided: aliasing behaviour of pointers/slices/maps at run time, append reallocation.",
 		Assumptions: []string{"translateImplicitConversionWithCloning is the single cloning conversion helper and $clone/T.copy the only copy primitives"},
-		Rules:       []RuleFunc{ruleC07Contexts, ruleC07Box, ruleC07Deep, ruleSliceHeaderPreserved},
+		Rules:       []RuleFunc{ruleC07Contexts, ruleC07Box, ruleC07Deep, ruleSliceHeaderPreserved, ruleC09ReceiverClone, ruleC07ReceiverCopy},
 	})
 }
 
@@ -103,6 +103,12 @@ func ruleC07Contexts(c *ctx.Ctx, r *core.Reporter) {
 			}
 		}
 		r.Check(n >= m.min, "must-clone:"+m.id, site, fmt.Sprintf("%s in %s [%s]: %d call(s) of translateImplicitConversionWithCloning (need %d) — %s", m.id, m.fn, m.path, n, m.min, m.what))
+	}
+	// translateArgs has no use for the non-cloning helper: every argument, the individually passed variadic
+	// ones included (the callee's xs[i] must not alias the caller's variable), is copied
+	if fd := c.FuncDecl("compiler", "funcContext.translateArgs"); fd != nil {
+		n := len(callsNamed(fd.Body, "translateImplicitConversion"))
+		r.Check(n == 0, "call-arguments:no-non-cloning-path", c.Pos(fd.Pos()), fmt.Sprintf("translateArgs calls the non-cloning conversion helper %d time(s): an argument converted there reaches the callee as the caller's own array or struct (f(a, b) with func f(xs ...T): xs[0] aliases a)", n))
 	}
 	// the cloning helper clones exactly for Array|Struct destinations
 	if fd := c.FuncDecl("compiler", "funcContext.translateImplicitConversionWithCloning"); fd != nil {
